@@ -16,6 +16,12 @@
 #undef protected
 #include "common.hpp"
 
+#include <primesieve/Wheel.hpp>
+template <class W> struct Rec : W {
+  bool stored = false; uint64_t mi = 0, wi = 0;
+  void storeSievingPrime(uint64_t, uint64_t m, uint64_t w) override { stored = true; mi = m; wi = w; }
+};
+
 int main()
 {
   using namespace primesieve;
@@ -27,6 +33,10 @@ int main()
       Erat e;
       e.init(u64(t[1]), u64(t[2]), u64(t[3]), pool);
       std::cout << e.segmentLow_ << " " << e.segmentHigh_ << " " << e.sieve_.size() << " " << e.maxEratSmall_ << " " << e.maxEratMedium_ << std::endl;
+    } else if (t.size() >= 4 && (t[0] == "ASP30" || t[0] == "ASP210")) {
+      // Wheel::addSievingPrime unit level: "<multipleIndex> <wheelIndex>" | "none"
+      if (t[0] == "ASP30") { Rec<Wheel30_t> w; w.stop_ = u64(t[1]); w.addSievingPrime(u64(t[2]), u64(t[3])); if (w.stored) std::cout << w.mi << " " << w.wi << std::endl; else std::cout << "none" << std::endl; }
+      else { Rec<Wheel210_t> w; w.stop_ = u64(t[1]); w.addSievingPrime(u64(t[2]), u64(t[3])); if (w.stored) std::cout << w.mi << " " << w.wi << std::endl; else std::cout << "none" << std::endl; }
     } else if (t.size() >= 3 && t[0] == "NBUF") {
       // forward buffer after the first generate_next_primes() of iterator(start, hint):
       // "<buffer size (Vector::size)> <size_> <chunk stop> <primeCountUpper(start, stop)>"
